@@ -46,7 +46,8 @@ def drive_a(rec, cases, part, nparts, quick, tag):
             ns.append(rng.choice(N_BIG))
         for n in ns:
             for mk in (kinds if n <= 64 else [rng.choice(kinds)]):
-                rec.progress("%s[%s] N=%d sizes=(%d,%d,%d) alias=%s" % (c["op"], mk, n, c["rs"], c["as"], c["bs"], c["alias"]))
+                if not rec.progress("%s[%s] N=%d sizes=(%d,%d,%d) alias=%s" % (c["op"], mk, n, c["rs"], c["as"], c["bs"], c["alias"])):
+                    continue
                 why, desc = vecops.run_case(L, mods, c, n, mk, rng, fill=rng.choice([0xC3, 0x00, 0xFF]),
                                             off=rng.choice([0, 8, 16, 24]))
                 rec.case((tag, c["op"], mk, c["rs"], c["as"], c["bs"], c["rsl"], c["asl"], c["bsl"], c["alias"],
@@ -89,7 +90,8 @@ def drive_b(rec, part, count):
         if "automorphism" in op:
             p |= 1
         a0, b0, r0 = A.snapshot(), B.snapshot(), R.snapshot()
-        rec.progress("%s[%s] N=%d sizes=(%d,%d,%d) strides=(%d,%d,%d)" % (op, mk, n, rs, as_, bs, rsl, asl, bsl))
+        if not rec.progress("%s[%s] N=%d sizes=(%d,%d,%d) strides=(%d,%d,%d)" % (op, mk, n, rs, as_, bs, rsl, asl, bsl)):
+            continue
         vecops.call_op(L, mods.get(n, mk), op, p, R, rs, rsl, A, as_, asl, B, bs, bsl)
         frame = R.canaries_ok() and A.canaries_ok() and B.canaries_ok() and bool((A.u8 == a0).all()) and bool((B.u8 == b0).all())
         rv, ru = R.i64, R.u8
